@@ -19,6 +19,7 @@ ASSUMPTIONS = [
     "resonance nominal mass strictly inside (m_i+m_j, M-m_k): q0 and p0 real (the formula's B_J(q,q0) is undefined otherwise)",
     "barrier radius d = 3.0 (library default), polar couplings r*exp(i phi) as documented",
     "numpy double precision reference; relative tolerance 1e-8 on the density",
+    "events within 1e-4*M of a Dalitz corner (a vanishing final-state or break-up momentum) are dropped: the four-vectors themselves carry the invariant masses only to rounding there",
 ]
 PAIRS = [(0, 1), (0, 2), (1, 2)]
 D_RADIUS = 3.0
@@ -62,6 +63,19 @@ def make_events(case, M, mf):
     u[:, 0] = np.clip(u[:, 0], 1e-6, 1 - 1e-6)
     u[:, [1, 3]] = np.clip(u[:, [1, 3]], 1e-9, 1 - 1e-9)
     p4 = kin.gen_three_body(M, mf, u)
+    # conditioning: at an exact corner of the Dalitz plot a final-state momentum (or a pair's break-up momentum)
+    # vanishes and the generated four-vectors themselves are only accurate to rounding (E^2-p^2 may come out
+    # negative for a massless particle of energy 1e-13); such events are dropped from the comparison
+    p4 = [np.asarray(p, dtype=float) for p in p4]
+    ok = np.ones(len(p4[0]), dtype=bool)
+    for p in p4:
+        ok &= np.sqrt(np.sum(p[:, 1:] ** 2, axis=-1)) > 1e-4 * M
+    for i, j in ((0, 1), (0, 2), (1, 2)):
+        pp = p4[i] + p4[j]
+        mij = np.sqrt(np.maximum(pp[:, 0] ** 2 - np.sum(pp[:, 1:] ** 2, axis=-1), 0.0))
+        ok &= mij - (mf[i] + mf[j]) > 1e-4 * M
+    if not np.all(ok) and np.sum(ok) >= 1:
+        p4 = [p[ok] for p in p4]
     b = case.get("boost")
     if b:
         beta = np.asarray(b, dtype=float)
